@@ -1247,6 +1247,324 @@ func wideStream(c *cli.Ctx, r *emit.Rng) error {
 	return w.Flush()
 }
 
+// ---------- extreme timestamps, every arrival order ----------
+
+var extremeTs = []int64{-9223372036854775808, -9223372036854775807, -6000000000000000000, -4611686018427387905, -1, 0, 1,
+	1700000000000, 4611686018427387904, 6000000000000000000, 9223372036854775806, 9223372036854775807}
+
+func permutations(n int) [][]int {
+	if n == 1 {
+		return [][]int{{0}}
+	}
+	var out [][]int
+	for _, p := range permutations(n - 1) {
+		for pos := 0; pos <= len(p); pos++ {
+			q := append(append(append([]int{}, p[:pos]...), n-1), p[pos:]...)
+			out = append(out, q)
+		}
+	}
+	return out
+}
+
+// tsStream: 3-5 samples of ONE series (equal labels) that differ only in their timestamps (near MinInt64/MaxInt64 ms, zero,
+// mixed signs, sometimes equal, sometimes one without timestamp), gathered in every arrival order (3 samples) or in shuffled
+// orders; case kind 2 = (first order, other order): a nil-error result must not depend on the order and must be sorted.
+func tsStream(c *cli.Ctx, r *emit.Rng) error {
+	w := emit.NewWriter(c.Out, "C09", "timestamps")
+	var fl failures
+	setScheme(false)
+	for i := 0; i < 45*c.Scale; i++ {
+		k := 3
+		if i%3 == 2 {
+			k = 4 + r.Intn(2)
+		}
+		builtin := i%2 == 1
+		pool := extremeTs
+		if builtin {
+			pool = []int64{-6000000000000000000, -4611686018427387905, -1, 0, 1, 1700000000000, 4611686018427387904, 6000000000000000000}
+		}
+		ts := make([]*int64, k)
+		for j := range ts {
+			v := pool[r.Intn(len(pool))]
+			for again := true; again; {
+				again = false
+				for _, p := range ts[:j] {
+					if *p == v {
+						v, again = pool[r.Intn(len(pool))], true
+					}
+				}
+			}
+			if j > 0 && r.Chance(1, 12) {
+				v = *ts[0] // an equal timestamp: a duplicate
+			}
+			ts[j] = &v
+		}
+		if r.Chance(1, 4) {
+			ts[r.Intn(k)] = nil // implies "now", sorted last
+		}
+		var labels []string
+		if r.Bool() {
+			labels = []string{"a", "b"}[:1+r.Intn(2)]
+		}
+		vt := []prometheus.ValueType{prometheus.GaugeValue, prometheus.CounterValue, prometheus.UntypedValue}[r.Intn(3)]
+		ty := map[prometheus.ValueType]int{prometheus.GaugeValue: 1, prometheus.CounterValue: 0, prometheus.UntypedValue: 3}[vt]
+		d := prometheus.NewDesc("series", "h", labels, nil)
+		vals := []string{"x", "y"}[:len(labels)]
+		build := func(order []int) func(rc *recorder) []prometheus.Metric {
+			return func(rc *recorder) []prometheus.Metric {
+				ms := make([]prometheus.Metric, 0, len(order))
+				for _, j := range order {
+					x := rc.newRec(false)
+					if builtin {
+						m := prometheus.MustNewConstMetric(d, vt, float64(j+1), vals...)
+						if ts[j] != nil {
+							m = prometheus.NewMetricWithTimestamp(time.UnixMilli(*ts[j]), m)
+						}
+						ms = append(ms, &wrapMetric{r: rc, x: x, inner: m})
+					} else {
+						m := &dto.Metric{TimestampMs: ts[j]}
+						for n, l := range labels {
+							m.Label = append(m.Label, lp(l, vals[n]))
+						}
+						setPayload(m, ty, j+1)
+						ms = append(ms, &advMetric{r: rc, x: x, d: d, content: m})
+					}
+				}
+				return ms
+			}
+		}
+		var orders [][]int
+		if k == 3 {
+			orders = permutations(3)
+		} else {
+			id := make([]int, k)
+			for j := range id {
+				id[j] = j
+			}
+			orders = append(orders, id)
+			for n := 0; n < 4; n++ {
+				p := append([]int{}, id...)
+				for a := k - 1; a > 0; a-- {
+					b := r.Intn(a + 1)
+					p[a], p[b] = p[b], p[a]
+				}
+				orders = append(orders, p)
+			}
+		}
+		arr0, out0, ids := gatherOrdered(false, build(orders[0]))
+		if rt := roundTrip(out0.mfs); rt != "" {
+			fl.add(w.Len(), rt)
+		}
+		for _, o := range orders[1:] {
+			arr1, out1, _ := gatherOrdered(false, build(o))
+			tags := []string{fmt.Sprintf("samples:%d", k)}
+			if builtin {
+				tags = append(tags, "NewMetricWithTimestamp")
+			} else {
+				tags = append(tags, "custom-metric")
+			}
+			if len(out0.kinds) == 0 && len(out1.kinds) == 0 {
+				tags = append(tags, "both-orders:nil-error")
+			} else {
+				tags = append(tags, "duplicate-timestamps")
+			}
+			w.Add(emit.Tup("2", "0", "0", ids, arr0, familiesTerm(out0.mfs), kindsTerm(out0.kinds), arr1, familiesTerm(out1.mfs), kindsTerm(out1.kinds)), true, tags...)
+		}
+	}
+	if len(fl.list) > 0 {
+		w.Extra["direct_failures"] = fl.list
+	}
+	return w.Flush()
+}
+
+// ---------- label values that confuse naive fingerprints ----------
+
+// confusingPairs returns couples of DIFFERENT (a, b) label value tuples whose naive serialisations coincide
+// (text a="..",b="..", plain concatenation, comma/equals joined).
+func confusingPairs(r *emit.Rng) [][2][2]string {
+	frag := []string{"\",b=\"", "\",", "=\"", "\"", ",", "=", "\\", "ÿ", "\x7f", "{", "}", " ", "\",b=\"\",b=\"", "", "\n", "\\\""}
+	pick := func() string { return []string{"1", "2", "3", "x", "", "é"}[r.Intn(6)] }
+	var out [][2][2]string
+	for _, f := range frag {
+		s1, s2, s3 := pick(), pick(), pick()
+		out = append(out, [2][2]string{{s1 + f + s2, s3}, {s1, s2 + f + s3}})
+	}
+	out = append(out, [2][2]string{{"1\",b=\"2", "3"}, {"1", "2\",b=\"3"}})
+	out = append(out, [2][2]string{{"ab", "c"}, {"a", "bc"}})
+	out = append(out, [2][2]string{{"", "ab"}, {"ab", ""}})
+	return out
+}
+
+// valueStream: children of a built-in vector (labels a, b[, c]) and custom metrics whose label values contain quotes, commas,
+// equals signs, backslashes, U+00FF, DEL and fragments like `",b="` shifted between adjacent labels.  The label sets are
+// pairwise different, so Gather has to return all of them with a nil error.
+func valueStream(c *cli.Ctx, r *emit.Rng) error {
+	w := emit.NewWriter(c.Out, "C09", "labelvalues")
+	var fl failures
+	setScheme(false)
+	for round := 0; round < 2*c.Scale; round++ {
+		for pi, pr := range confusingPairs(r) {
+			if pr[0] == pr[1] {
+				continue
+			}
+			three := r.Chance(1, 3)
+			names := []string{"a", "b"}
+			if three {
+				names = []string{"a", "b", "c"}
+			}
+			reg := prometheus.NewRegistry()
+			pedantic := r.Bool()
+			if pedantic {
+				reg = prometheus.NewPedanticRegistry()
+			}
+			rc := newRecorder()
+			tags := map[string]bool{}
+			switch pi % 3 {
+			case 0, 1: // built-in vector
+				var col prometheus.Collector
+				add := func(vals []string, v float64) {}
+				if pi%2 == 0 {
+					cv := prometheus.NewCounterVec(prometheus.CounterOpts{Name: "vals", Help: "h"}, names)
+					col, add = cv, func(vals []string, v float64) { cv.WithLabelValues(vals...).Add(v) }
+				} else {
+					gv := prometheus.NewGaugeVec(prometheus.GaugeOpts{Name: "vals", Help: "h"}, names)
+					col, add = gv, func(vals []string, v float64) { gv.WithLabelValues(vals...).Set(v) }
+				}
+				for n, t := range pr {
+					vals := []string{t[0], t[1]}
+					if three {
+						vals = []string{"z", t[0], t[1]}[:3]
+						if r.Bool() {
+							vals = []string{t[0], t[1], "z"}
+						}
+					}
+					add(vals, float64(n+1))
+				}
+				reg.MustRegister(&wrapCollector{r: rc, inner: col})
+				tags["built-in vector"] = true
+			default: // custom metrics from an unchecked collector
+				d := prometheus.NewDesc("vals", "h", names[:2], nil)
+				col := &advCollector{}
+				for n, t := range pr {
+					x := rc.newRec(false)
+					m := &dto.Metric{Label: []*dto.LabelPair{lp("a", t[0]), lp("b", t[1])}}
+					setPayload(m, 1, n+1)
+					col.metrics = append(col.metrics, &advMetric{r: rc, x: x, d: d, content: m})
+				}
+				reg.MustRegister(col)
+				tags["custom metrics"] = true
+			}
+			out, pan := gatherWithWatchdog(reg)
+			idx := w.Len()
+			if pan != "" {
+				fl.add(idx, "Gather panicked: "+pan)
+			}
+			if len(out.kinds) > 0 {
+				fl.add(idx, fmt.Sprintf("metrics with pairwise different label sets %q / %q: Gather reported error kinds %v", pr[0], pr[1], out.kinds))
+			}
+			if rt := roundTrip(out.mfs); rt != "" {
+				fl.add(idx, rt)
+			}
+			arr, _ := arrivalsTerm(rc)
+			kindTags(out.kinds, tags)
+			w.Add(emit.Tup("0", "0", emit.B(pedantic), idsTerm(reg), arr, familiesTerm(out.mfs), kindsTerm(out.kinds)), true, tagList(tags)...)
+		}
+	}
+	if len(fl.list) > 0 {
+		w.Extra["direct_failures"] = fl.list
+	}
+	return w.Flush()
+}
+
+// ---------- collectors that use the registry from within Collect ----------
+
+type reentrantCollector struct {
+	reg  *prometheus.Registry
+	own  prometheus.Collector
+	todo func(reg *prometheus.Registry)
+	once sync.Once
+}
+
+func (c *reentrantCollector) Describe(ch chan<- *prometheus.Desc) { c.own.Describe(ch) }
+func (c *reentrantCollector) Collect(ch chan<- prometheus.Metric) {
+	c.once.Do(func() { c.todo(c.reg) }) // register-on-first-use
+	c.own.Collect(ch)
+}
+
+func gatherWithin(g prometheus.Gatherer, d time.Duration) (out gatherOut, panicked string) {
+	done := make(chan struct{})
+	go func() {
+		defer close(done)
+		defer func() {
+			if e := recover(); e != nil {
+				panicked = fmt.Sprint(e)
+			}
+		}()
+		mfs, err := g.Gather()
+		out.mfs, out.kinds = mfs, errKinds(err)
+	}()
+	select {
+	case <-done:
+	case <-time.After(d):
+		return gatherOut{hung: true}, ""
+	}
+	return
+}
+
+// reentrantStream: Collect registers another collector on / unregisters one from the registry being gathered.
+// Gather must return (it releases the registry lock before collecting); the next Gather sees the changed registration.
+func reentrantStream(c *cli.Ctx, r *emit.Rng) error {
+	w := emit.NewWriter(c.Out, "C09", "reentrant")
+	var fl failures
+	setScheme(false)
+	for i := 0; i < 4; i++ {
+		reg := prometheus.NewRegistry()
+		rc := newRecorder()
+		first := prometheus.NewGauge(prometheus.GaugeOpts{Name: "first", Help: "h"})
+		first.Set(1)
+		second := prometheus.NewCounter(prometheus.CounterOpts{Name: "second", Help: "h"})
+		second.Add(2)
+		victim := &wrapCollector{r: rc, inner: prometheus.NewGauge(prometheus.GaugeOpts{Name: "victim", Help: "h"})}
+		var todoErr error
+		todo := func(reg *prometheus.Registry) { todoErr = reg.Register(&wrapCollector{r: rc, inner: second}) }
+		what := "Collect registers another collector"
+		if i%2 == 1 {
+			reg.MustRegister(victim)
+			todo = func(reg *prometheus.Registry) {
+				if !reg.Unregister(victim) {
+					todoErr = errors.New("Unregister returned false")
+				}
+			}
+			what = "Collect unregisters another collector"
+		}
+		reg.MustRegister(&reentrantCollector{reg: reg, own: &wrapCollector{r: rc, inner: first}, todo: todo})
+		for round := 0; round < 2; round++ {
+			rc.mu.Lock()
+			rc.order, rc.seen = nil, map[int]bool{}
+			rc.mu.Unlock()
+			out, pan := gatherWithin(reg, 4*time.Second)
+			idx := w.Len()
+			if out.hung {
+				fl.add(idx, what+" on the registry being gathered: Gather did not return within 4 s")
+				w.Add(emit.Tup("0", "0", "0", "()", "()", "()", "()"), true, what, "HUNG")
+				break
+			}
+			if pan != "" {
+				fl.add(idx, "Gather panicked: "+pan)
+			}
+			if todoErr != nil {
+				fl.add(idx, what+" failed: "+todoErr.Error())
+			}
+			arr, _ := arrivalsTerm(rc)
+			w.Add(emit.Tup("0", "0", "0", idsTerm(reg), arr, familiesTerm(out.mfs), kindsTerm(out.kinds)), true, what, fmt.Sprintf("gather:%d families:%d", round+1, len(out.mfs)))
+		}
+	}
+	if len(fl.list) > 0 {
+		w.Extra["direct_failures"] = fl.list
+	}
+	return w.Flush()
+}
+
 // ---------- known findings (known_findings.txt) ----------
 
 // gatherOrdered gathers the metrics from ONE unchecked collector, i.e. in exactly the given order.
@@ -1366,6 +1684,15 @@ func runC09(c *cli.Ctx) error {
 		return err
 	}
 	if err := wideStream(c, r.Fork()); err != nil {
+		return err
+	}
+	if err := tsStream(c, r.Fork()); err != nil {
+		return err
+	}
+	if err := valueStream(c, r.Fork()); err != nil {
+		return err
+	}
+	if err := reentrantStream(c, r.Fork()); err != nil {
 		return err
 	}
 	if err := knownMultiPayload(c, r.Fork()); err != nil {
